@@ -4,3 +4,32 @@ from __future__ import annotations
 from pathlib import Path
 
 from .gen_tables import lean_str_list, literal, table  # noqa: F401
+
+
+def lean_char(c: str) -> str:
+    """a Lean `Char` literal"""
+    special = {"'": "\\'", "\\": "\\\\", "\n": "\\n", "\t": "\\t", "\r": "\\r"}
+    if c in special:
+        return "'" + special[c] + "'"
+    if 32 <= ord(c) < 127:
+        return f"'{c}'"
+    return f"(Char.ofNat {ord(c)})"
+
+
+def lean_char_list(chars: str) -> str:
+    """sorted, duplicate-free `List Char` literal"""
+    return "[" + ", ".join(lean_char(c) for c in sorted(set(chars))) + "]"
+
+
+@table("Ids")
+def ids_tables(repo: Path) -> str:
+    """C16: the two illegal-character sets (record ids / gene ids)"""
+    rec = literal(repo / "antismash/common/record_processing.py", "illegal_chars", within="fix_record_name_id")
+    cds = literal(repo / "antismash/common/secmet/features/cds_feature.py", "illegal_chars",
+                  within="_sanitise_id_value")
+    return ("namespace ASV.Generated.Ids\n\n"
+            "/-- `illegal_chars` of `record_processing.fix_record_name_id` -/\n"
+            f"def illegalRecordChars : List Char := {lean_char_list(''.join(rec))}\n\n"
+            "/-- `illegal_chars` of `cds_feature._sanitise_id_value` -/\n"
+            f"def illegalGeneChars : List Char := {lean_char_list(''.join(cds))}\n\n"
+            "end ASV.Generated.Ids\n")
